@@ -438,6 +438,27 @@ def check_cob_formulas(facts, rep):
             forms[b.defp] = (f.get(1, 0), f.get('b', 0), tuple(coefs))
         except NotAffine as e:
             forms[b.defp] = 'not affine: %s' % e
+    # every path of CobComp::connect that merges the boundary also recomputes the genus (a "fast path" that glues the
+    # tangles and keeps the stored genus misses the handle created when a sheet is glued to both ends of a tube)
+    stale = []
+    try:
+        for p in SymEx(cn[0], havoc_loops=True, max_paths=20000).run():
+            if p.end != 'return':
+                continue
+            merged = [e for e in p.calls() if e.name.split('::')[-1] == 'connect' and e.args and e.args[0][0] == 'mref' and re.search(r'arg1\.(src|tgt)$', sk(('mref', e.args[0][1])).replace('*', '').replace('&mut ', '').replace('&', '')) is not None]
+            wrote = any(e.kind == 'write' and e.lv[1] and e.lv[1][-1] == 'genus' for e in p.events)
+            if merged and not wrote:
+                conds = [sk(e.term)[:60] for e in p.branches() if not (e.name or '').startswith('assert:')]
+                stale.append(conds[:3])
+    except Exception as ex:
+        rep.indet('E8.F4: CobComp::connect: %s' % str(ex)[:100])
+        return
+    if stale:
+        rep.violation('E8.F4-cobordism-formulas', 'CobComp::connect|the genus is recomputed whenever the boundary is merged',
+                      'CobComp::connect has a path (under %s) that glues the source / target tangles but keeps the stored genus: gluing can create a handle (a sheet glued to both ends of a tube), the neck-cutting factor is then never applied and an edge of the complex has a wrong value' % stale[0],
+                      where=cn[0].where())
+    else:
+        rep.ok('E8.F4-cobordism-formulas', 'CobComp::connect|the genus is recomputed whenever the boundary is merged', 'every merging path writes genus')
     inst = 'genus recomputation|g = (2 - (x1 + x2 + b) + a)/2 in connect and stack_comps'
     want = (2, -1, (-1, -1, 1))
     if len(forms) == 2 and all(v == want for v in forms.values()):
